@@ -34,6 +34,7 @@ CONSTANTS NCalls = {n}
  VarTrees <- ConcTrees
  HeaderModes <- AllHdr
  Reuse <- Bools
+ OpNames <- AllOpNames
  Deviations <- {dev}
 INVARIANT NoInterference
 INVARIANT OwnResponse
@@ -80,6 +81,7 @@ def run(tier, work, replay=None):
     rnd = random.Random(seed())
     for i, c in enumerate(cases):
         c["timeout"] = i % 5 == 0
+        c["opname"] = ["named", "omitted", "named", "none"][i % 4]        # execute(query) without / with operation_name=None
     # histories: sequential with a shared caller dict; concurrent
     trees = [c["tree"] for c in cases]
     ups = [t for t in trees if by_tree[json.dumps(t)]["wire"]["kind"] == "multipart"]
@@ -139,12 +141,14 @@ def run(tier, work, replay=None):
                 continue
             ob = rec["obs"]
             want = c["wire"]
-            agree.setdefault(json.dumps(c["tree"]), {})[name] = json.dumps({k: ob.get(k) for k in ("kind", "vars", "map", "files", "ctype", "body_keys", "query_ok", "method")}, sort_keys=True)
+            agree.setdefault(json.dumps(c["tree"]), {})[name] = json.dumps({k: ob.get(k) for k in ("kind", "vars", "map", "files", "ctype", "body_keys", "query_ok", "method", "opname")}, sort_keys=True)
             probs = []
             if rec["requests"] != 1:
                 probs.append("requests_sent=%d" % rec["requests"])
             if ob["method"] != "POST" or not ob["query_ok"] or ob["body_keys"] != ["operationName", "query", "variables"]:
                 probs.append("body_keys_or_query")
+            if ob.get("opname") != ("named" if c["opname"] == "named" else "null"):
+                probs.append("operation_name:" + str(ob.get("opname")))
             for k in ("kind", "vars", "map", "files", "ctype"):
                 if ob.get(k) != want[k]:
                     probs.append(k)
@@ -154,7 +158,7 @@ def run(tier, work, replay=None):
                 probs.append("caller_variables_mutated")
             if probs:
                 v.violation(feats, "wire_differs:" + ",".join(probs), {"expected": want, "observed": ob})
-            tr = [{"e": "case", "calls": [{"tree": c["tree"], "hdr": "none", "reuse": False}]}, {"e": "wire", "c": 1, "obs": ob},
+            tr = [{"e": "case", "calls": [{"tree": c["tree"], "hdr": "none", "reuse": False, "opname": c["opname"]}]}, {"e": "wire", "c": 1, "obs": ob},
                   {"e": "ret", "c": 1, "got": 1, "cvars": rec.get("cvars")}]
             traces.append(tr)
             owners.append(feats)
@@ -167,7 +171,7 @@ def run(tier, work, replay=None):
                 continue
             if not hrec["shared_clean"]:
                 v.violation(feats, "caller_headers_mutated", {"after": hrec["shared_after"], "calls": h["calls"]})
-            tr = [{"e": "case", "calls": [{"tree": c["tree"], "hdr": c["hdr"], "reuse": c["reuse"]} for c in h["calls"]]}]
+            tr = [{"e": "case", "calls": [{"tree": c["tree"], "hdr": c["hdr"], "reuse": c["reuse"], "opname": "named"} for c in h["calls"]]}]
             for e in hrec["events"]:
                 if e["e"] == "wire":
                     tr.append({"e": "wire", "c": e["c"], "obs": e["obs"]})
